@@ -366,11 +366,16 @@ class MeshTag(Op):
             else:
                 el = np.sort(resolve_subset(m.nelements, a["sub"]))
                 ob = m.facets_around(el, flip=(how == "around-flip"))
+            from skfem.generic_utils import OrientedBoundary
+            idx, ori = np.asarray(ob), np.asarray(ob.ori)
+            # facets_around(flip=True) flags domain-boundary facets with
+            # ori = 1 although there is no element on that side; a facet
+            # basis on such a facet reads element -1 and uninitialised
+            # normals (not reproducible): such pairs are not legal input
+            keep = ~((m.f2t[1, idx] < 0) & (ori == 1))
             if a.get("interior"):
-                from skfem.generic_utils import OrientedBoundary
-                keep = m.f2t[1, np.asarray(ob)] >= 0
-                ob = OrientedBoundary(np.asarray(ob)[keep],
-                                      np.asarray(ob.ori)[keep])
+                keep &= m.f2t[1, idx] >= 0
+            ob = OrientedBoundary(idx[keep], ori[keep])
             return m.with_boundaries({a["name"]: ob})
         return m.with_subdomains(
             {a["name"]: resolve_subset(m.nelements, a["sub"])})
